@@ -94,6 +94,13 @@ ROLES = {
     '_pdf_unnorm_single_point': ('elfi.methods.posteriors:RomcPosterior', 'method',
                                  lambda f: _has(f, 'self.surrogate_used') and
                                  f.name != '__init__'),
+    '_process_simulated': ('elfi.methods.inference.parameter_inference:ModelBased', 'method',
+                           lambda f: f.params == ['self'] and not f.is_property and
+                           (_has(f, 'self.likelihood(') or
+                            (_has(f, 'NotImplementedError') and _has(f, 'simulated')))),
+    '_init_round': ('elfi.methods.inference.parameter_inference:ModelBased', 'method',
+                    lambda f: f.params == ['self'] and _has(f, "['n_sim_round'] = 0") and
+                    not _has(f, "['n_batches'] = 0") and f.name != '__init__'),
     '_update_state_meta': ('elfi.methods.inference.samplers:Rejection', 'method',
                            lambda f: _has(f, "['threshold'] = ") and _has(f, "['accept_rate']") and
                            f.name not in ('set_objective', '__init__')),
